@@ -510,6 +510,8 @@ def run_property(prop, tier, jobs, assumptions, level_text, keep=False, only=Non
     order = list(range(len(jobs)))
     if seed:
         rnd.shuffle(order)
+    # queries with an explicit (longer) time limit start first, so that the check's wall time is max(longest query, total / cores)
+    order.sort(key=lambda i: -(jobs[i].timeout or 0))
     entries_by_unit = {}
     for j in jobs:
         entries_by_unit.setdefault(j.unit_key(), set()).add(j.entry)
